@@ -3,6 +3,7 @@ package verifh
 import (
 	"fmt"
 	"testing"
+	"time"
 	"testing/synctest"
 )
 
@@ -26,8 +27,9 @@ type SessResult struct {
 type Delivery struct {
 	Chunk   int            // >0: client delivers each request in pieces of this many bytes, waiting for quiescence in between
 	MaxRead int            // >0: server-side socket reads return at most this many bytes
-	Before  map[int]func() // harness actions executed before request i is sent (e.g. replace a file on disk)
-	Prelude func(s *Sess)  // runs on the fresh server before the judged connection is made (e.g. another client's aborted transfer)
+	Before  map[int]func() `json:"-"` // harness actions executed before request i is sent (e.g. replace a file on disk)
+	Prelude func(s *Sess)  `json:"-"` // runs on the fresh server before the judged connection is made (e.g. another client's aborted transfer)
+	StallT  time.Duration  // >0: after a truncated request the client does not send FIN but falls silent for longer than this (the server's read timeout)
 }
 
 // runSession drives one connection through reqs against a freshly started server and checks every response
@@ -70,6 +72,15 @@ func runSession(t *testing.T, o SrvOpts, m *Model, reqs []Req, d Delivery) *Sess
 				resp, closed = c.Take(), c.ServerClosed()
 			} else {
 				resp, closed = s.Exchange(c, b)
+			}
+			if rq.Raw != nil && !closed && d.StallT > 0 {
+				// truncated request, then silence with the connection open: the read timeout must end the connection
+				time.Sleep(d.StallT + d.StallT/2)
+				synctest.Wait()
+				resp = append(resp, c.Take()...)
+				if closed = c.ServerClosed(); !closed {
+					fail(i, opName(rq.Op)+":stalled-request-survives-timeout", fmt.Sprintf("step %d %s: the client fell silent inside the request for 1.5 read timeouts and the connection is still open (answered %s)", i, rq.String(), hexHead(resp)))
+				}
 			}
 			if rq.Raw != nil && !closed {
 				// truncated request: the client gives up (FIN); the server must just end the connection
@@ -151,4 +162,4 @@ func reqStrings(reqs []Req) []string {
 	return out
 }
 
-func (d Delivery) plain() bool { return d.Chunk == 0 && d.MaxRead == 0 && d.Before == nil && d.Prelude == nil }
+func (d Delivery) plain() bool { return d.Chunk == 0 && d.MaxRead == 0 && d.Before == nil && d.Prelude == nil && d.StallT == 0 }
